@@ -1178,7 +1178,7 @@ func convC(t_dst, t_src types.Type, x value) value {
 		case *types.Basic:
 			// *value to unsafe.Pointer?
 			if ut_dst.Kind() == types.UnsafePointer {
-				return unsafe.Pointer(x.(*value))
+				panic(engineAbort{"unsafe.Pointer conversion in target code is not modelled (bind a stub for the enclosing function): " + trail()})
 			}
 		}
 
